@@ -30,7 +30,7 @@ func c16genClientSide(c *core.Case, r *rand.Rand) {
 			var op core.Op
 			switch x := r.IntN(10); {
 			case x < 4:
-				op = core.Op{Kind: "cadd", S: []string{"", "", "nest"}[r.IntN(3)]}
+				op = core.Op{Kind: "cadd", S: []string{"", "", "nest", "doom"}[r.IntN(4)]}
 			case x < 6:
 				op = core.Op{Kind: []string{"cremove", "cremove", "cself"}[r.IntN(3)], X: int64(r.IntN(8))}
 			default:
@@ -111,8 +111,9 @@ func c16clientSide(c *core.Case, env *core.Env, st *c16state) {
 		cs.lents = append(cs.lents, rec)
 		return rec
 	}
-	add := func(a int, nest bool) {
+	add := func(a int, nest, doom bool) {
 		rec := newRec(false)
+		rec.impl.SelfDoom = doom
 		var child *c16lent
 		if nest {
 			child = newRec(true)
@@ -136,6 +137,12 @@ func c16clientSide(c *core.Case, env *core.Env, st *c16state) {
 		}
 		cs.mu.Lock()
 		rec.id, rec.addRet = lp.Proxy().ObjectID(), h.Ret
+		if doom {
+			// it terminated itself before Add returned
+			rec.removeCall = h.Call
+			rec.removeRets = append(rec.removeRets, h.Ret)
+			env.Probe("client-hosted-objects-terminating-themselves-during-activation")
+		}
 		if child != nil && rec.impl.NestErr == nil && rec.impl.NestID != 0 {
 			child.id, child.addRet = rec.impl.NestID, h.Ret
 		}
@@ -205,8 +212,8 @@ func c16clientSide(c *core.Case, env *core.Env, st *c16state) {
 		}
 	}
 	// two objects before the race
-	add(90, false)
-	add(90, false)
+	add(90, false, false)
+	add(90, false, false)
 	env.S.Quiesce()
 	by := map[int][]core.Op{}
 	var actors []int
@@ -224,7 +231,7 @@ func c16clientSide(c *core.Case, env *core.Env, st *c16state) {
 			for i, op := range by[a] {
 				switch op.Kind {
 				case "cadd":
-					add(a, op.S == "nest")
+					add(a, op.S == "nest", op.S == "doom")
 				case "cremove", "cself":
 					if rec := pick(op.X); rec != nil {
 						remove(a, op.Kind, rec)
